@@ -178,8 +178,9 @@ def parseCfg (kv : Kv) : Cfg :=
     { aimd := true, cost := kv.nat "wd" 1, amount := kv.nat "dep" 1, maxTokens := mx, initial := mx,
       minLimit := kv.nat "min" 1, maxLimit := mx, fnum := kv.nat "fnum" 1, fden := kv.nat "fden" 2 }
   else
+    -- `TokenBucketBudget::new` clamps the initial balance to the burst capacity
     { aimd := false, cost := 1000, amount := 1000, maxTokens := kv.nat "max" 10 * 1000,
-      initial := kv.nat "initial" 0 * 1000, minLimit := 0, maxLimit := 0 }
+      initial := min (kv.nat "initial" 0) (kv.nat "max" 10) * 1000, minLimit := 0, maxLimit := 0 }
 
 def renderOut (o : List (Option Bool)) : String :=
   ",".intercalate (o.map fun r => match r with | some true => "1" | some false => "0" | none => "-")
